@@ -551,6 +551,10 @@ class AsyncClient(base_client.BaseClient):
                                    retry=False)
             except (exceptions.ConnectionError, ValueError):
                 pass
+            except Exception:
+                # an application handler failed while the failure of this
+                # attempt was being reported: the attempt failed all the same
+                self.logger.exception('Reconnection attempt error')
             else:
                 self.logger.info('Reconnection successful')
                 self._reconnect_task = None
